@@ -164,6 +164,33 @@ def run_mesh_option_mismatch(ctx):
             ctx.oblige(a == b, "no error only when every shared option is equal")
 
 
+def curvature_refusals(S):
+    """calc_curvature refuses -- with ValueError, before anything is computed or stored -- the
+    combinations it does not implement: the x-y-derivative form on a non-orthogonal grid, and
+    curvature types it has no branch for.  The real method is run on a region that has NO field
+    arrays at all: the only acceptable outcome is the ValueError (anything else -- returning, or
+    failing later on a missing array -- means the refusal is gone)."""
+    from hypnotoad.core.mesh import MeshRegion
+    from . import meshkit as mk
+
+    bad = []
+    cases = [(False, "curl(b/B) with x-y derivatives", True), (True, "bxkappa", True), (False, "bxkappa", True), (True, "no such curvature type", True)]
+    for orth, ctype, must_refuse in cases:
+        r = mk.skeleton_region(orth, curvature_type=ctype)
+        before = set(vars(r))
+        try:
+            MeshRegion.calc_curvature(r)
+            out = "returned"
+        except ValueError:
+            out = "refused"
+        except Exception as e:  # noqa
+            out = "went on and failed with %s" % type(e).__name__
+        stored = sorted(set(vars(r)) - before)
+        if (out == "refused") != must_refuse or stored:
+            bad.append(dict(orthogonal=orth, curvature_type=ctype, outcome=out, attributes_stored=stored[:4]))
+    S.static_vc("curvature-refusals", "hypnotoad.core.mesh:MeshRegion.calc_curvature", "unsupported curvature settings are refused with ValueError before anything is stored (%d combinations)" % len(cases), not bad, detail=repr(bad[:3]), kind="native-all-classes", model=bad[0] if bad else None)
+
+
 def option_consistency_classes(S):
     """The real Mesh.__init__ (run up to the version look-up, which is replaced by a sentinel) on
     real optionsfactory objects, for EVERY option shared by equilibrium and mesh: an equilibrium
@@ -248,6 +275,8 @@ def build(S):
     curvature_output_guard(S)
     S.contract("Mesh.__init__[option consistency]", FN_M, run_mesh_option_mismatch, shape="one shared, one equilibrium-only, one mesh-only option")
     option_consistency_classes(S)
+    S.under_contract("hypnotoad.core.mesh:MeshRegion.calc_curvature")
+    curvature_refusals(S)
     from vc.shim import numpy_shimmed
     from . import C08, C09
 
